@@ -43,6 +43,12 @@ class OutlineBase(plumpy.WorkChain):
         from . import programs
         programs.ProgBase._attach(self)
 
+    def on_paused(self, msg=None):
+        super().on_paused(msg)
+        rec = getattr(self, '_rec', None)
+        if rec is not None:
+            rec.fire('paused', self)
+
     def _call(self, kind, name):
         tr = self.ctx.setdefault('tr', [])
         if name in DECORATED and getattr(self, '_inside_wrapper', None) != name:
@@ -57,6 +63,9 @@ class OutlineBase(plumpy.WorkChain):
             script = self.inputs['rets']
             val = script[idx] if idx < len(script) else None
         tr.append(name)
+        rec = getattr(self, '_rec', None)
+        if rec is not None and kind == 's':
+            rec.fire('step', self, idx)  # (the harness may request a pause from inside the step)
         # one list reachable under two context keys, written through the second: the context is one object graph and
         # a checkpoint has to keep it one
         if not hasattr(self.ctx, 'log'):
